@@ -124,6 +124,22 @@ PROPS["C01"] = dict(
     thorough=dict(shards=16, timeout=2400),
 )
 
+PROPS["C05"] = dict(
+    pkg="c05", level="exploration", design_ref="DESIGN.md section 3, C05",
+    technique="differential testing: the same bytes decoded from a contiguous slice and from a fragmenting reader (generated chunk sequences, every split position, every chunk size, zero-byte reads) across buffer sizes",
+    level_text=("Differential property: for generated valid streams (C01 generator) and their truncations, decoding through a reader that fragments the data must give the "
+                "same value (compared in the neutral node space), the same error class and the same final stream position (a sentinel value decoded next) as decoding "
+                "from a slice. Fragmentations are generated (fixed sizes 1..300, two-way splits, sizes around the 256-byte buffer, random sequences with zero-byte reads) and, "
+                "for each generated stream of up to 700 bytes, every split position and every chunk size is enumerated."),
+    level_note="A reader that returns (0, nil) for ever is outside io.Reader's contract and not generated (at most 3 in a row). When both sides panic the case is charged to C04, not here.",
+    rule=("random: rapid-drawn (stream, truncation, fragmentation, buffer size); every-split: all two-way splits and all fixed chunk sizes of generated streams; boundary: "
+          "strings of 1-4 byte characters placed across the 256/512-byte marks. Non-trivial = at least one read boundary fell strictly inside a token span (number, length "
+          "prefix, string or byte payload, guid, time) as measured by the independent parser; distinct by (type, stream, fragmentation, buffer)."),
+    assumptions=["the slice decoder is the reference; its own correctness is C01/C04/C06's business"],
+    quick=dict(shards=4, timeout=600),
+    thorough=dict(shards=16, timeout=2400),
+)
+
 # properties not claimed yet (kept current as checks land)
 _ALL = ["C%02d" % i for i in range(1, 21)]
 NOT_APPLICABLE = [dict(property_id=p, reason="check not built yet in this revision (planned in DESIGN.md section 3); not a limit of the technique")
